@@ -115,7 +115,7 @@ def families():
 # setattr for the slots, a falsy state is ignored. The enumeration: state shape x class layout x position in the graph x protocol;
 # oracle: the same object pickled with the standard pickle (same state, flag aside).
 SHAPES = ('dict', 'pair', 'pair-none', 'pair-empty-slots', 'none', 'empty')
-LAYOUTS = ('dict-only', 'slots+dict', 'slots-only')
+LAYOUTS = ('dict-only', 'slots+dict', 'slots-only', 'dict+setattr')
 POSITIONS = ('top', 'child', 'in-list', 'in-dict-under-plain', 'chain')
 
 
@@ -132,6 +132,12 @@ def _noset_class(layout, shape):
         sl = {k: getattr(self, k) for k in ('sx', 'sy', 'uid') if k in getattr(type(self), '__slots__', ()) and hasattr(self, k)}
         return {'dict': d or sl, 'pair': (d, sl), 'pair-none': (None, sl), 'pair-empty-slots': (d, {}), 'none': None, 'empty': {}}[shape]
     ns = {'__getstate__': __getstate__, '__module__': G.__name__, '__qualname__': name}
+    if layout == 'dict+setattr':
+        # attribute assignment is customised (dirty tracking): the unpickler restores a dict state straight into __dict__
+        def __setattr__(self, k, v):
+            object.__setattr__(self, k, v)
+            object.__setattr__(self, '_touched', True)
+        ns['__setattr__'] = __setattr__
     if layout == 'slots+dict':
         ns['__slots__'] = ('sx', 'sy')            # the marker base class brings the __dict__
     elif layout == 'slots-only':
@@ -143,7 +149,7 @@ def _noset_class(layout, shape):
 
 
 def _noset_valid(layout, shape):
-    if layout == 'dict-only':
+    if layout in ('dict-only', 'dict+setattr'):
         return shape in ('dict', 'pair-empty-slots', 'none', 'empty')
     if layout == 'slots-only':
         return shape in ('pair-none', 'none', 'empty')
@@ -164,7 +170,7 @@ def _noset_make(layout, shape, position, n):
             o.uid = 'u%d' % i
             if kid is not None:
                 o.kid = kid
-        if layout != 'dict-only':
+        if layout not in ('dict-only', 'dict+setattr'):
             o.sx = i * 10
             o.sy = ['slot', i]
         return o
